@@ -296,6 +296,7 @@ def queue_scenario(r, length=None):
     events = []
     t = 0
     opens = []
+    bad_batches = r.random() < 0.3
     for _ in range(n):
         c = r.random()
         if opens and collect and c < 0.35:
@@ -310,10 +311,26 @@ def queue_scenario(r, length=None):
         for _ in range(burst):
             svc = r.choice(SERVICES)
             e = svc.create_offer_entry(r.choice([0, 3])) if r.random() < 0.6 else H.SOMEIPSDEntry(H.SOMEIPSDEntryType.SubscribeAck, svc.service_id, svc.instance_id, 1, r.choice([0, 3]), r.randint(0, 15) << 16 | 5)
+            if bad_batches and r.random() < 0.08:
+                # an entry that cannot be encoded (instance id beyond 16 bits): its whole batch is lost (outside the property's
+                # domain), but whatever is queued for that destination afterwards must still be sent
+                e = H.SOMEIPSDEntry(H.SOMEIPSDEntryType.OfferService, svc.service_id, 0x12345, 1, 3, 0)
+                events.append((t, (1, [19, conv.s_entry(e), dest])))
+                t += collect + 1       # whatever follows is outside the lost batch's window
+                break
             events.append((t, (1, [19, conv.s_entry(e), dest])))
         opens.append(t)
     events.sort(key=lambda x: x[0])
-    return dict(cfg=tuple(cfg), insts=[], draws=[], events=events, end=end, rev=r.random() < 0.3, fuel=20000)
+    if bad_batches:
+        # keep the window after an unencodable entry free of further entries for that destination, and queue good ones afterwards
+        for tb, (_, c) in [ev for ev in events if ev[1][1][1][2] == 0x12345]:
+            dest = c[2]
+            events = [(tt + collect + 1 if (cc[2] == dest and tb < tt <= tb + collect) else tt, (k, cc)) for tt, (k, cc) in events]
+            svc = r.choice(SERVICES)
+            for j in range(r.randint(1, 3)):
+                events.append((tb + collect + 1 + j * r.choice([0, 1, collect]), (1, [19, conv.s_entry(svc.create_offer_entry(3)), dest])))
+        events.sort(key=lambda x: x[0])
+    return dict(cfg=tuple(cfg), insts=[], draws=[], events=events, end=max(end, (events[-1][0] if events else 0) + 2 * collect + 10), rev=r.random() < 0.3, fuel=20000)
 
 
 def lifecycle_scenario(r):
